@@ -150,6 +150,29 @@ func TestVerifC08(t *testing.T) {
 			}
 		}
 	}
+	// longer batches for the index arithmetic of filtered / dead-lettered holes: every filter/error pattern of one stage
+	// next to an all-pass stage (funnel engine; the default engine handles one record at a time)
+	holeN := []int{4, 5, 6}
+	if verifkit.Thorough() {
+		holeN = []int{4, 5, 6, 7, 8}
+	}
+	for _, n := range holeN {
+		allPass := make([]string, n)
+		for i := range allPass {
+			allPass[i] = "p"
+		}
+		for _, hole := range []string{"f", "e"} {
+			for _, v := range kindVectors(n, []string{"p", hole}) {
+				j := strings.Join(v, "")
+				if !strings.Contains(j, hole) || (hole == "e" && n > 6) {
+					continue
+				}
+				cases = append(cases, c08Case{Engine: "v2", N: n, Stage1: v, Stage2: allPass, Dests: 1},
+					c08Case{Engine: "v2", N: n, Stage1: allPass, Stage2: v, Dests: 1})
+			}
+		}
+	}
+	rep.Bound("hole_batches_max", holeN[len(holeN)-1])
 	rep.Bound("cases_total", len(cases))
 	rep.Bound("max_batch", maxN)
 	done := 0
@@ -203,10 +226,11 @@ func checkC08(c c08Case, x *verifkit.Exec) []verifkit.Violation {
 		dlqOrig  bool
 		recv     map[string]map[string]int // dest -> piece -> count
 		ackedPcs map[string]map[string]bool
+		paths    map[string]bool // processing paths (processor ids in order) of the copies destinations received
 	}
 	recs := make([]*rec, c.N)
 	for i := range recs {
-		recs[i] = &rec{recv: map[string]map[string]int{}, ackedPcs: map[string]map[string]bool{}}
+		recs[i] = &rec{recv: map[string]map[string]int{}, ackedPcs: map[string]map[string]bool{}, paths: map[string]bool{}}
 	}
 	var ackOrder []int
 	degraded := false
@@ -238,6 +262,11 @@ func checkC08(c c08Case, x *verifkit.Exec) []verifkit.Violation {
 				r.recv[e.Comp] = map[string]int{}
 			}
 			r.recv[e.Comp][piece]++
+			pth := ""
+			if k := strings.Index(e.Arg, "path="); k >= 0 {
+				pth = strings.SplitN(e.Arg[k+5:], "|", 2)[0]
+			}
+			r.paths[pth] = true
 		case isDest(e.Comp) && e.Kind == "ack":
 			if r.ackedPcs[e.Comp] == nil {
 				r.ackedPcs[e.Comp] = map[string]bool{}
@@ -273,6 +302,15 @@ func checkC08(c c08Case, x *verifkit.Exec) []verifkit.Violation {
 				bad("C08/dlq-not-original", "record %d was dead-lettered but the DLQ received a piece / derived record, not the original", i)
 			}
 		case "delivered":
+			wantPath := "p1,"
+			if c.Stage2 != nil {
+				wantPath = "p1,p2,"
+			}
+			for pth := range r.paths {
+				if pth != wantPath {
+					bad("C08/record-delivered-without-its-processing", "record %d reached a destination with processing path %q, expected %q: a stale or foreign copy of the record was delivered", i, pth, wantPath)
+				}
+			}
 			if r.dlq != 0 {
 				bad("C08/outcome-changed", "record %d should be delivered but was dead-lettered (another record's failure leaked onto it)", i)
 			}
